@@ -127,7 +127,7 @@ PROPS = {
               "Combined model (Props/Consensus.lean over Model/Indexed.lean = IndexedLachesis): Consensus.indexed_no_trace - a buildIndexed or a rejected processIndexed (wrong frame / election error) made at any point of any log of Process/Build calls returns literally the "
               "previous (Orderer state, index state, indexing order), so the final state and every later answer equal those of the log without the call (Consensus.processIndexed_rejected, buildIndexed_state); no hypotheses - true by construction of the model's transaction "
               "(Flush = keep the new index state, DropNotFlushed = keep the old one). Still not proved: that the real DropNotFlushed restores the tables (correspondence)."
-              " Row caches of vecfc.Index (Props/VecRowCache.lean): for every history of get / set / flush / DropNotFlushed / Reset / eviction (any policy) a read through the HighestBefore / LowestAfter LRU caches equals the uncached read (get_transparent, answers_transparent); transparent_iff: exactly the purge on roll-back, the purge on Reset and the Add in the setters are necessary (negative witnesses), the guard `NotFlushedPairs() != 0` is safe; the call pattern is the regenerated one (goCalls_is_the_code over Gen.FactsVec). Structural expectations (Props/Facts.lean over Gen.FactsCons / Gen.FactsVec): the unconditional calls and statement orders the models take for granted (fresh id in Build, deferred DropNotFlushed, Add before Process before Flush, purges, branch table written before the flush, ...) are regenerated as Bool facts and stated as theorems. "
+              " Row caches of vecfc.Index (Props/VecRowCache.lean): for every history of get / set / flush / DropNotFlushed / Reset / eviction (any policy) a read through the HighestBefore / LowestAfter LRU caches equals the uncached read (get_transparent, answers_transparent); transparent_iff: exactly the purge on roll-back, the purge on Reset and the Add in the setters are necessary (negative witnesses), the guard `NotFlushedPairs() != 0` is safe; the call pattern is the regenerated one (goCalls_is_the_code over Gen.FactsVec). Temporary ids of Build (Model/TempId.lean: the counter right-aligned in 24 bytes, shape of uniqueID.sample regenerated): Facts.temp_ids_never_reused - two different builds of an instance (fewer than 2^192) never get the same id, which is what makes the forkless-cause cache keys of built events deterministic. Structural expectations (Props/Facts.lean over Gen.FactsCons / Gen.FactsVec): the unconditional calls and statement orders the models take for granted (fresh id in Build, deferred DropNotFlushed, Add before Process before Flush, purges, branch table written before the flush, ...) are regenerated as Bool facts and stated as theorems. "
               " Persistence of the index (Props/VecPersist.lean over Model/VecPersist.lean: store + unflushed overlay + in-memory branch table; the conditions of Engine.Flush / DropNotFlushed / InitBranchesInfo regenerated as Gen.VecPersist): for every sequence of add / flush / DropNotFlushed / query / restart the working view equals the functional run over the surviving events (working_view_eq_run), a restart gives the run over the FLUSHED events with the persisted branch table even when no fork happened yet (reload_eq_run_flushed, reload_branch_table, branches_record_persisted, fork_after_restart), and add followed by DropNotFlushed leaves no trace (add_drop_no_trace, add_drop_erased); negative witness for a Flush that persists the table only once a fork exists (Mutant.witness). ",
               props=["LachesisVerif.Props.Facts", "LachesisVerif.Props.VecRowCache", "LachesisVerif.Props.C07", "LachesisVerif.Props.Consensus", "LachesisVerif.Props.VecPersist"], level="proof"),
     "C08": _p("Proof (partial: one epoch): on Model.Orderer (persisted = epoch, validators, LastDecidedFrame, roots table; volatile = the election; restart = "
